@@ -2,7 +2,7 @@
 """print a markdown table of /verif/seeded/*/meta.json (used for DESIGN.md §11.5)"""
 import json, glob, os, re
 rows = []
-for d in sorted(glob.glob('/verif/seeded/*/')):
+for d in sorted(glob.glob('/verif/seeded/C*/')):
     m = json.load(open(d + 'meta.json'))
     notes = open(d + 'notes.md').read()
     patch = open(d + 'patch.diff').read()
